@@ -73,6 +73,37 @@ func genC14(ctx *Ctx, i int) *Input {
 		if r.Chance(2, 3) {
 			in.LayoutSeed = r.Uint64() | 1
 		}
+		if r.Chance(1, 6) {
+			// two terminals with the same token code (an explicit number equal to a literal's code or to another explicit
+			// number): the generated file is of no use, but it is still one file - determinism holds for every grammar
+			dr := r.Sub("dupcode")
+			var named []int
+			for ti, t := range in.Spec.Terms {
+				if t.Name != "" && t.Decl == wl.DeclToken && !t.Redecl {
+					named = append(named, ti)
+				}
+			}
+			if len(named) > 0 {
+				a := named[dr.Intn(len(named))]
+				code := 0
+				for ti, t := range in.Spec.Terms {
+					if ti != a && t.Name == "" && dr.Chance(1, 2) {
+						code = int(t.Lit)
+					} else if ti != a && t.Code > 0 && dr.Chance(1, 2) {
+						code = t.Code
+					}
+				}
+				if code == 0 && len(named) > 1 {
+					b := named[(dr.Intn(len(named)-1)+1+indexOf(named, a))%len(named)]
+					code = 700 + dr.Intn(50)
+					in.Spec.Terms[b].Code = code
+				}
+				if code != 0 {
+					in.Spec.Terms[a].Code = code
+					in.Spec.Terms[a].Alias = ""
+				}
+			}
+		}
 	}
 	k := numSched(ctx, 6, 24)
 	in.Scheds = append(schedules(ctx, r.Sub("sched"), k), enga.Schedule{Default: "desc"})
@@ -81,6 +112,15 @@ func genC14(ctx *Ctx, i int) *Input {
 		in.Extra = map[string]any{"real_runs": numSched(ctx, 4, 12)}
 	}
 	return in
+}
+
+func indexOf(xs []int, x int) int {
+	for i, v := range xs {
+		if v == x {
+			return i
+		}
+	}
+	return 0
 }
 
 func (in *Input) textFor(v wl.Variant, epi int) string {
